@@ -1,8 +1,11 @@
 package main
 
 import (
+	"context"
 	"fmt"
 	"time"
+
+	goat "github.com/avos-io/goat"
 
 	"github.com/avos-io/goat/gen/goatorepo"
 )
@@ -113,5 +116,88 @@ func c17OddShapes(r *Run) {
 			w.finish(sh.name != "nil-metadata-entry")
 			hooks.Reset(false)
 		}
+	}
+}
+
+// c17ChanPeerCloses: a peer attached over the library's channel transport goes away by closing its
+// queue. The proxy removes it and tells the disconnect callback; traffic between the other peers goes
+// on; a later envelope for its name makes the proxy dial it again; and after cancellation nothing of
+// the proxy is left running.
+func c17ChanPeerCloses(r *Run) {
+	if !r.Want("chanpeer") {
+		return
+	}
+	base := c17Base()
+	in := map[string]any{"peer": "attached with goat.NewGoatOverChannel, closes its inbound queue"}
+	r.Progress("chanpeer", in)
+	ctx, cancel := context.WithCancel(context.Background())
+	disc := make(chan string, 8)
+	dialled := make(chan string, 8)
+	proxy := goat.NewProxy(ctx, "px", func(id string) (goat.RpcReadWriter, error) {
+		dialled <- id
+		return NewScript(16), nil
+	}, nil, func(id string, reason error) { disc <- id })
+	served := make(chan struct{})
+	go func() { defer close(served); proxy.Serve() }()
+	a, b := NewScript(16), NewScript(16)
+	proxy.AddClient("a", a)
+	proxy.AddClient("b", b)
+	cIn, cOut := make(chan *Rpc, 4), make(chan *Rpc, 4)
+	proxy.AddClient("c", goat.NewGoatOverChannel(cIn, cOut))
+	ok := true
+	expect := func(s *Script, id uint64, what string) {
+		select {
+		case e := <-s.Out:
+			if e.Id != id {
+				r.Violate("chanpeer.forward", "ops", "unexpected envelope forwarded ("+what+")", in, e.Id, id)
+				ok = false
+			}
+		case <-time.After(hangTimeout):
+			r.Violate("chanpeer.forward", "ops", "an envelope was not forwarded ("+what+")", in, goroutineDump(), nil)
+			ok = false
+		}
+	}
+	a.In <- pxGoodEnv(1, "a", "b")
+	expect(b, 1, "a to b")
+	cIn <- pxGoodEnv(2, "c", "b") // the peer's last envelope …
+	close(cIn)                    // … and it is gone
+	if ok {
+		expect(b, 2, "the closing peer's last envelope")
+	}
+	if ok {
+		select {
+		case id := <-disc:
+			if id != "c" {
+				r.Violate("chanpeer.disconnect", "ops", "the disconnect callback named another peer", in, id, "c")
+				ok = false
+			}
+		case <-time.After(hangTimeout):
+			r.Violate("chanpeer.disconnect", "ops", "a peer whose channel transport was closed was never removed / reported to the disconnect callback", in, goroutineDump(), "callback for c")
+			ok = false
+		}
+	}
+	if ok {
+		a.In <- pxGoodEnv(3, "a", "b")
+		expect(b, 3, "a to b after the peer left")
+		a.In <- pxGoodEnv(4, "a", "c")
+		select {
+		case id := <-dialled:
+			if id != "c" {
+				r.Violate("chanpeer.redial", "ops", "the proxy dialled another name", in, id, "c")
+			}
+		case <-time.After(hangTimeout):
+			r.Violate("chanpeer.redial", "ops", "an envelope for the departed peer's name did not make the proxy dial it", in, goroutineDump(), nil)
+		}
+	}
+	r.Eval("chanpeer", true)
+	r.Count("c17.chanpeer")
+	cancel()
+	a.FailRead(errInjectedRead)
+	b.FailRead(errInjectedRead)
+	within(hangTimeout, func() { <-served })
+	if n, where := settleGoroutines(base); n > base {
+		c17Leaks++
+		c17Floor = n
+		r.Violate("chanpeer.leak", "schedule", "goroutines of the proxy were left behind after its context was cancelled", in, where, fmt.Sprintf("%d goat goroutines, as before NewProxy", base))
 	}
 }
